@@ -131,6 +131,7 @@ func newWorld07() *world07 {
 }
 
 type res07 struct {
+	Writer   *sim.SimWriter // the io.Writer handed to this call; must not be written to after the call returned
 	Canon    string
 	Aborted  bool  // an injected fault fired in this call: its own result is not judged
 	Retained []any // values returned to the caller, to be re-inspected later
@@ -170,7 +171,10 @@ func drawValue07(t *rapid.T) (any, string) {
 	mk := func() zInner {
 		return zInner{S: []string{"", "s", "x y"}[sim.Intn(t, 3, "zs")], N: sim.Intn(t, 3, "zn"), F: []float64{0, 1.5}[sim.Intn(t, 2, "zf")]}
 	}
-	switch sim.Weighted(t, "valkind", 5, 2, 2, 1, 1, 1) {
+	switch sim.Weighted(t, "valkind", 5, 2, 2, 1, 1, 1, 1) {
+	case 6: // larger than the default WriteLimit of the pooled writers
+		v := []any{strings.Repeat("x", 1100+sim.Intn(t, 400, "biglen")), sim.Intn(t, 3, "n")}
+		return v, fmt.Sprintf("[\"x\"*%d, %v]", len(v[0].(string)), v[1])
 	case 0:
 		v := gens.Tree(t, 3)
 		return v, fmt.Sprintf("%#v", v)
@@ -582,6 +586,7 @@ func (o *op07) exec(w *world07) (r *res07) {
 				r.Aborted = true
 			}
 			text = sw.Buf
+			r.Writer = sw
 		}
 		r.Canon = canonDocs(err != nil, []any{string(text)})
 		if sw == nil {
@@ -801,6 +806,12 @@ func propC07(cx *sim.Ctx) {
 		snap string
 	}
 	var retained []kept
+	type keptWriter struct {
+		op    int
+		w     *sim.SimWriter
+		calls int
+	}
+	var writers []keptWriter
 	prevAbortOrDiff := map[string]bool{}
 	lastSubjCfg := map[string]string{}
 	nontrivial := false
@@ -850,6 +861,15 @@ func propC07(cx *sim.Ctx) {
 				cx.Fail(fmt.Sprintf("C07/stability/%s.%s", c.Ops[k.op].Subj, c.Ops[k.op].Fn), fmt.Sprintf("value returned by op %d changed after op %d (%s): was %s, now %s", k.op, i, o, clip(k.snap), clip(s)), map[string]any{"subject": c.Ops[k.op].Subj, "fn": c.Ops[k.op].Fn, "later": o.Subj + "." + o.Fn})
 				break
 			}
+		}
+		for _, kw := range writers {
+			if len(kw.w.Calls) != kw.calls {
+				cx.Fail(fmt.Sprintf("C07/stability/late-write/%s.%s", c.Ops[kw.op].Subj, c.Ops[kw.op].Fn), fmt.Sprintf("the io.Writer handed to op %d received %d more Write call(s) during op %d (%s)", kw.op, len(kw.w.Calls)-kw.calls, i, o), map[string]any{"subject": c.Ops[kw.op].Subj, "fn": c.Ops[kw.op].Fn, "later": o.Subj + "." + o.Fn})
+				break
+			}
+		}
+		if r.Writer != nil {
+			writers = append(writers, keptWriter{op: i, w: r.Writer, calls: len(r.Writer.Calls)})
 		}
 		if !r.Volatile && !r.Aborted && len(r.Retained) > 0 {
 			retained = append(retained, kept{op: i, vals: r.Retained, snap: snapshot(r.Retained)})
